@@ -512,3 +512,62 @@ func abandonOnlyWhenNoKeys(c *eng.Ctx) {
 	}
 	c.Check(n >= 2, "keep-or-drop-sites-found", nil, nil, "flush commit and compaction output both decide whether the builder becomes a table file", fmt.Sprintf("%d sites", n))
 }
+
+// everyIterationPasses: site s lies in a loop; every iteration of that loop executes s — no `continue` (or other jump to
+// the next iteration) bypasses it.  Decided by dominance: s dominates every source of a back edge of the innermost loop
+// that contains it.  Leaving the loop (break / return) before s is not judged here.
+func everyIterationPasses(c *eng.Ctx, fn *ssa.Function, s eng.Site, sub, want string) {
+	// innermost loop header containing s: a block h that dominates s's block, has a back edge, and from which s is in the body
+	sb := s.Instr.Block()
+	if s.Instr.Parent() != fn {
+		c.Check(false, sub, s.Instr, fn, want, "the site is not written in the loop's function body (unrecognised shape)")
+		return
+	}
+	var header *ssa.BasicBlock
+	for _, h := range fn.Blocks {
+		if !h.Dominates(sb) {
+			continue
+		}
+		isHeader := false
+		for _, pr := range h.Preds {
+			if h.Dominates(pr) && reaches(sb, pr) {
+				isHeader = true
+			}
+		}
+		if isHeader && (header == nil || header.Dominates(h)) {
+			header = h
+		}
+	}
+	if header == nil {
+		c.Check(false, sub, s.Instr, fn, want, "the site is not inside a loop")
+		return
+	}
+	bad := ""
+	for _, pr := range header.Preds {
+		if !header.Dominates(pr) {
+			continue
+		}
+		if !(sb.Dominates(pr)) {
+			bad += fmt.Sprintf("block %d jumps to the next iteration without passing it; ", pr.Index)
+		}
+	}
+	c.Check(bad == "", sub, s.Instr, fn, want, bad)
+}
+
+func reaches(from, to *ssa.BasicBlock) bool {
+	seen := map[*ssa.BasicBlock]bool{}
+	st := []*ssa.BasicBlock{from}
+	for len(st) > 0 {
+		x := st[len(st)-1]
+		st = st[:len(st)-1]
+		if x == to {
+			return true
+		}
+		if seen[x] {
+			continue
+		}
+		seen[x] = true
+		st = append(st, x.Succs...)
+	}
+	return false
+}
